@@ -52,7 +52,10 @@ class SymAlg:
     def inv_sbox(x): return SBV(INV_SBOX_UF(_b8(x)), 'uint8')
     @staticmethod
     def mul(x, k): return SBV(_mulz(_b8(x), k), 'uint8')
+    @staticmethod
+    def rcon(j): return SBV(RCON_CONST[j], 'uint8')
 
+RCON_CONST = [z3.BitVec('fips_Rcon%d' % (j + 1), 8) for j in range(14)]     # opaque: the values are pinned by the RCON table obligation
 GM_UF = {k: z3.Function('fips_GFmul%d' % k, BV8, BV8) for k in (2, 3, 9, 11, 13, 14)}
 class CompAlg(SymAlg):
     """algebra for the composition obligations: primitives are modular calls, so GF multiplication stays uninterpreted"""
@@ -98,6 +101,8 @@ class AesUnderProof:
             diffs = [(i, lit[i] if i < len(lit) else None, spec[i]) for i in range(len(spec)) if i >= len(lit) or lit[i] != spec[i]]
             self.table_ok[name] = not diffs and len(lit) == len(spec); self.table_diffs[name] = diffs
         symnp.TABLE_HOOK[0] = self._table_hook
+        self._rcon_storage = id(self.mod.RCON.st)
+        symnp.CONST_HOOK[0] = self._const_hook
     def _table_hook(self, arr, st, idx):
         ent = self._by_storage.get(id(st))
         if ent is None or len(idx) != 1: return None
@@ -109,6 +114,9 @@ class AesUnderProof:
         else:
             z = _b8(i)
         return SBV(z3.simplify(term(z)), 'uint8')
+    def _const_hook(self, arr, st, idx):
+        if id(st) != self._rcon_storage or not self.table_ok['RCON'] or len(idx) != 2: return None
+        return SBV(RCON_CONST[idx[0]], 'uint8') if idx[1] == 0 else None
     def fn(self, name): return getattr(self.mod, name)
     def sha(self, name): return self.ld.fn_hash.get('scared.aes.base::' + name)
 
